@@ -28,7 +28,7 @@ PRIMS = {
     "mpz_set": ((0,), False), "mpz_set_ui": ((0,), False), "mpz_add": ((0,), False), "mpz_sub": ((0,), False),
     "mpz_mul": ((0,), False), "mpz_add_ui": ((0,), False), "mpz_sub_ui": ((0,), False), "mpz_mod": ((0,), False),
     "mpz_mul_2exp": ((0,), True), "mpz_fdiv_q_2exp": ((0,), False), "mpz_powm": ((0,), False), "mpz_powm_ui": ((0,), False),
-    "mpz_mod_ui": ((0,), False), "mpz_gcdext": ((0, 1, 2), False), "mpz_tdiv_qr": ((0, 1), False), "mpz_fdiv_qr": ((0, 1), False),
+    "mpz_mod_ui": ((0,), False), "mpz_roinit_n": ((0,), False), "mpz_gcdext": ((0, 1, 2), False), "mpz_tdiv_qr": ((0, 1), False), "mpz_fdiv_qr": ((0, 1), False),
 }
 PURE = {"mpz_jacobi", "mpz_legendre", "mpz_cmp", "mpz_cmp_ui", "mpz_sgn", "mpz_tstbit", "mpz_scan1", "mpz_sizeinbase", "mpz_fdiv_ui"}
 IGNORED = {"mpz_init", "mpz_clear", "ibz_init", "ibz_finalize"}
@@ -43,6 +43,7 @@ FUNCS = [
     ("ibz_crt", "src/intbig/ref/generic/intbig.c", dict(kind="out", outs=["crt"], fuels=[])),
     ("ibz_sqrt_mod_p", "src/intbig/ref/generic/intbig.c", dict(kind="res", outs=["sqrt"], fuels=["q.toNat", "p.toNat - 1"])),
     ("ibz_sqrt_mod_2p", "src/intbig/ref/generic/intbig.c", dict(kind="res", outs=["sqrt"], fuels=[])),
+    ("ibz_rand_interval", "src/intbig/ref/generic/intbig.c", dict(kind="res", outs=["rand", "stream"], fuels=["stream.length + 1"], stream=True)),
 ]
 RES_FUNCS = {"ibz_sqrt_mod_p": 1}      # translated callees returning int + writing their first argument
 
@@ -105,7 +106,7 @@ def function_body(src, name):
 
 
 # ------------------------------------------------------------------------------------------- tokenizer / parser
-TOK = re.compile(r"\s*(?:(\d+)(?:UL|ul|U|L)?|([A-Za-z_]\w*)|(<<|>>|<=|>=|==|!=|&&|\|\||\+\+|--|[-+*/%<>=!&|(){}\[\];,:?~^]))")
+TOK = re.compile(r"\s*(?:(\d+)(?:UL|ul|U|L)?|([A-Za-z_]\w*)|(<<|>>|<=|>=|==|!=|&&|\|\||&=|\+\+|--|[-+*/%<>=!&|(){}\[\];,:?~^]))")
 
 
 def tokenize(text):
@@ -171,9 +172,13 @@ class P:
             names = []
             while self.peek(j)[0] == "id":
                 names.append(self.peek(j)[1]); j += 1
-            if names and self.peek(j) == ("op", ")") and all(n in INT_TYPES | {"unsigned", "int", "long", "signed"} for n in names):
+            ptr = False
+            if names and self.peek(j) == ("op", "*"):
+                ptr = True; j += 1
+            if names and self.peek(j) == ("op", ")") and all(n in INT_TYPES | {"unsigned", "int", "long", "signed", "char"} for n in names):
                 self.i += j + 1
-                return ("cast", " ".join(names), self.unary())
+                inner = self.unary()
+                return inner if ptr else ("cast", " ".join(names), inner)
             self.next()
             e = self.expr()
             self.expect(")")
@@ -196,6 +201,9 @@ class P:
                             break
                         self.expect(",")
                 return ("call", v, args)
+            if self.accept("["):
+                idx = self.expr(); self.expect("]")
+                return ("index", v, idx)
             return ("id", v)
         raise IntbigError("expression not in subset at %r" % (self.peek(),))
 
@@ -218,7 +226,13 @@ class P:
             while True:
                 name = self.next()[1]
                 if self.accept("["):
-                    raise IntbigError("array declaration not in subset (%s)" % name)
+                    if v != "mp_limb_t":
+                        raise IntbigError("array declaration not in subset (%s)" % name)
+                    self.expr(); self.expect("]")
+                    out.append(("decl", "mpz_t", name, None))      # a limb array is one register (its little-endian value)
+                    if self.accept(";"):
+                        break
+                    self.expect(","); continue
                 init = None
                 if self.accept("="):
                     init = self.expr()
@@ -279,6 +293,11 @@ class P:
             if e[0] != "id":
                 raise IntbigError("assignment target not a variable")
             return [("assign", e[1], rhs)]
+        if self.accept("&="):
+            rhs = self.expr(); self.expect(";")
+            if e[0] != "index":
+                raise IntbigError("`&=` is accepted on an indexed limb only")
+            return [("andassign", e[1], e[2], rhs)]
         if self.accept("++"):
             self.expect(";")
             return [("assign", e[1], ("bin", "+", e, ("num", 1)))]
@@ -301,6 +320,7 @@ class Emit:
         self.fname, self.cfg, self.params = fname, cfg, params
         self.fuels = list(cfg["fuels"])
         self.final_label = None
+        self.loop_tuple = []
 
     # expressions
     def ex(self, e, prop=False):
@@ -310,6 +330,8 @@ class Emit:
         if k == "id":
             return ln(e[1])
         if k == "cast":
+            if "mp_limb_t" in e[1] or "unsigned" in e[1]:
+                return "(ulOfInt %s)" % self.atom(e[2])
             return self.ex(e[2])
         if k == "un":
             if e[1] == "-":
@@ -366,6 +388,10 @@ class Emit:
                     add(self.reg(s[2][0]))
             elif s[0] == "assign":
                 add(s[1])
+                if s[2][0] == "call" and s[2][1] == "randombytes":
+                    add(self.reg(s[2][2][0])); add("stream")
+            elif s[0] == "andassign":
+                add(s[1])
             elif s[0] == "decl" and s[3] is not None:
                 add(s[2])
             elif s[0] == "if":
@@ -391,7 +417,7 @@ class Emit:
                 return True
             if s[0] == "call" and any(a[0] == "bin" and a[1] in ("<<", ">>") for a in s[2]):
                 return True
-            if s[0] == "assign" and (s[2][0] == "bin" and s[2][1] in ("<<", ">>") or s[2][0] == "call" and s[2][1] in RES_FUNCS):
+            if s[0] == "assign" and (s[2][0] == "bin" and s[2][1] in ("<<", ">>") or s[2][0] == "call" and s[2][1] in set(RES_FUNCS) | {"randombytes"}):
                 return True
             if s[0] == "if" and (self.transfers(s[2]) or self.transfers(s[3])):
                 return True
@@ -450,9 +476,9 @@ class Emit:
         kind = s[0]
         if kind == "decl":
             if s[3] is None:
-                if s[1] in MPZ_TYPES:
-                    return "%slet %s : Int := 0\n" % (ind, ln(s[2])) + self.comp(rest, ind, k)
-                return self.comp(rest, ind, k)
+                # mpz locals start at 0 (mpz_init); an uninitialised int local is bound to 0 (reading it before an
+                # assignment would be undefined in C and is not modelled)
+                return "%slet %s : Int := 0\n" % (ind, ln(s[2])) + self.comp(rest, ind, k)
             return self.comp([("assign", s[2], s[3])] + rest, ind, k)
         if kind == "assign":
             rhs = s[2]
@@ -462,6 +488,12 @@ class Emit:
                     ind, f, self.atom(rhs[2]), self.atom(rhs[3]), ind, ind, ln(s[1]))) + self.comp(rest, ind + "  ", k)
             if rhs[0] == "call" and rhs[1] in RES_FUNCS:
                 return self.res_call(s[1], rhs, rest, ind, k)
+            if rhs[0] == "call" and rhs[1] == "randombytes":
+                buf = self.reg(rhs[2][0])
+                okb = self.comp(rest, ind + "  ", k)
+                failb = self.comp(rest, ind + "  ", k)
+                return ("%smatch randombytes stream %s with\n%s| none =>\n%s  let %s : Int := 1\n%s%s| some (%s, stream) =>\n%s  let %s : Int := 0\n%s" % (
+                    ind, self.atom(rhs[2][1]), ind, ind, ln(s[1]), failb, ind, ln(buf), ind, ln(s[1]), okb))
             return "%slet %s : Int := %s\n" % (ind, ln(s[1]), self.ex(rhs)) + self.comp(rest, ind, k)
         if kind == "call":
             f, args = s[1], s[2]
@@ -522,9 +554,28 @@ class Emit:
             t = self.tup(vs)
             body = self.comp(s[3], ind + "      ", lambda i2: "%s%s\n" % (i2, t))
             return ("%slet %s := forN\n%s    (fun %s =>\n%s%s    ) (%s).toNat %s\n" % (ind, t, ind, t, body, ind, self.ex(s[2]), t)) + self.comp(rest, ind, k)
+        if kind == "andassign":
+            return "%slet %s := maskTopLimb %s %s %s\n" % (ind, ln(s[1]), ln(s[1]), self.atom(s[2]), self.atom(s[3])) + self.comp(rest, ind, k)
+        if kind == "doloop":
+            if not self.fuels:
+                self.err("no fuel annotation for a do-while loop")
+            fuel = self.fuels.pop(0)
+            vs = self.modified(s[1])
+            t = self.tup(vs)
+            self.loop_tuple.append(t)
+            body = self.comp(s[1], ind + "      ", lambda i2: "%sStep.next %s\n" % (i2, t))
+            self.loop_tuple.pop()
+            return ("%smatch doLoop (fun %s =>\n%s%s    ) (%s) %s with\n%s| none => Res.ub\n%s| some (Sum.inr res) => res\n%s| some (Sum.inl %s) =>\n" % (
+                ind, t, body, ind, fuel, t, ind, ind, ind, t)) + self.comp(rest, ind + "  ", k)
+        if kind == "break":
+            if not self.loop_tuple:
+                self.err("break outside a do-while loop")
+            return "%sStep.stop %s\n" % (ind, self.loop_tuple[-1])
         if kind == "goto":
             if s[1] != self.final_label:
                 self.err("goto %s: only the final label is accepted" % s[1])
+            if self.loop_tuple:
+                return "%sStep.exit (\n%s%s)\n" % (ind, self.epilogue(ind + "  "), ind)
             return self.epilogue(ind)
         if kind == "return":
             return self.ret_text(s[1], ind)
@@ -585,10 +636,10 @@ def translate(repo, fname, path, cfg):
     text = em.comp(stmts, "  ", lambda ind: em.err("control reaches the end of the function without return"))
     if em.fuels:
         raise IntbigError("%s: unused fuel annotations (a loop disappeared)" % fname)
-    res = {"res": "Res " + ("Int" if len(cfg["outs"]) == 1 else "(" + " × ".join(["Int"] * len(cfg["outs"])) + ")"),
+    res = {"res": "Res " + ("(Int × List Nat)" if cfg.get("stream") else "Int" if len(cfg["outs"]) == 1 else "(" + " × ".join(["Int"] * len(cfg["outs"])) + ")"),
            "ret": "Int",
            "out": "Int" if len(cfg["outs"]) == 1 else "(" + " × ".join(["Int"] * len(cfg["outs"])) + ")"}[cfg["kind"]]
-    sig = " ".join("(%s : Int)" % ln(n) for n, _ in params)
+    sig = " ".join("(%s : Int)" % ln(n) for n, _ in params) + (" (stream : List Nat)" if cfg.get("stream") else "")
     return "/-- translated from %s:%s -/\ndef %s %s : %s :=\n%s" % (path, fname, fname, sig, res, text)
 
 
